@@ -18,7 +18,7 @@ import random
 
 
 class Tape:
-    __slots__ = ("seed", "_rng", "_replay", "_pos", "values", "tags", "keep_tags")
+    __slots__ = ("seed", "_rng", "_replay", "_pos", "values", "tags", "keep_tags", "ns")
 
     def __init__(self, seed: int | None = None, values: list[int] | None = None, keep_tags: bool = False):
         self.seed = seed
@@ -26,6 +26,7 @@ class Tape:
         self._replay = list(values) if values is not None else None
         self._pos = 0
         self.values: list[int] = []
+        self.ns: list[int] = []  # number of options at each draw (for systematic enumeration of schedules)
         self.tags: list[str] = []
         self.keep_tags = keep_tags
 
@@ -41,6 +42,7 @@ class Tape:
             v = self._rng.randrange(n)
         self._pos += 1
         self.values.append(v)
+        self.ns.append(n)
         if self.keep_tags:
             self.tags.append(tag)
         return v
